@@ -8,14 +8,15 @@ export GOFLAGS=-mod=mod GOPROXY=off
 P="$1"; N="${2:-1}"; W=/tmp/seed-$P; O=/tmp/seed-$P-out; D=/verif/seeded/$P-$N
 [ -f "$O/patch.diff" ] && [ -f "$O/meta.json" ] || { echo "missing outputs in $O"; exit 2; }
 mkdir -p "$D"
-cp "$O"/* "$D"/ 2>/dev/null
+cp -r "$O"/* "$D"/ 2>/dev/null
 demo=$(python3 -c "import json;print(json.load(open('$O/meta.json'))['demo_cmd'])" | sed -E 's/export GOFLAGS=[^;]*; *//; s/ +\(.*$//; s/^cd [^;&]*(;|&&) *//')
 echo "demo: $demo"
 cd "$W" || exit 2
 ( eval "$demo" ) > "$D/demo_with_change.log" 2>&1; rc_with=$?
-git stash -q -- $(git diff --name-only) 2>/dev/null
+# (no git stash: refs/stash is shared between all worktrees of the repository)
+git apply -R "$O/patch.diff" || { echo "cannot revert patch"; exit 2; }
 ( eval "$demo" ) > "$D/demo_without_change.log" 2>&1; rc_without=$?
-git stash pop -q
+git apply "$O/patch.diff"
 echo "demo with change rc=$rc_with ; without change rc=$rc_without"
 cd /verif
 if [ "${SKIPCHECK:-0}" = 1 ] && [ -f "$D/check_quick.log" ]; then rc_check=$(grep -oE "exit=[0-9]+" "$D/check_quick.log" | tail -1 | cut -d= -f2); else tools/mutant.sh seed-$P-$N "$O/patch.diff" "$P" quick > "$D/check_quick.log" 2>&1; rc_check=$?; fi
